@@ -130,4 +130,9 @@ def gen():
                % _chain_term(_replace_chain(os.path.join(sax, "element.py"), "Element", "__escaped_text")))
     out.append("Definition attr_charrefs : list (N * str) := %s."
                % _chain_term(_replace_chain(os.path.join(sax, "attribute.py"), "Attribute", "__unicode__")))
+    # CPython runtime table (not suds): the characters str.strip() removes; Text.trim uses it.
+    sp = [c for c in range(0x110000) if chr(c).isspace()]
+    if (" x ").strip() != "x" or len(sp) > 64:
+        raise SystemExit("tables_c04: unexpected str.isspace table")
+    out.append("Definition py_space : list N := %s%%N." % common.clist(["%d" % c for c in sp], "N"))
     return "\n".join(out) + "\n"
